@@ -13,7 +13,7 @@ package verifharness
 //   watch <denom>                               -> ok          include a denomination in dumps
 //   regcoin <denom> <contract>                  -> ok          real RegisterCoin; <contract> = address it deployed (checked)
 //   addcoin <denom> <contract>                  -> ok          real AddCoin
-//   deploy <mb|dbm|mal|dd|fr> <contract> <deployer> <init> -> ok  deploy a token contract of the repo (address checked)
+//   deploy <mb|dbm|mal|dd|fr|pg> <contract> <deployer> <init> -> ok  deploy a token contract of the repo (address checked)
 //   regerc20 <contract> <denom>                 -> ok          real RegisterERC20; <denom> = voucher denomination it created (checked)
 //   tmint <contract> <caller> <to> <amt>        -> ok|err      EVM call mint(to, amt) by caller
 //   ttransfer <contract> <caller> <to> <amt>    -> ok|err      EVM call transfer(to, amt) by caller
@@ -32,6 +32,7 @@ package verifharness
 //                                                  transfer/channel-0) through the app's transfer route = aggregate middleware
 //                                                  over the real transfer application, on a cache context written iff the
 //                                                  acknowledgement is nil or a success (ibc-go core RecvPacket); <voucher> is checked
+//   ctl <contract> <read now> <read next> <who|-> <transfer>  -> ok   programs the programmable token "pg" (c11_pg_test.go)
 //   gov <param key> <0|1>                       -> ok          governance: a real ParameterChangeProposal (subspace "aggregate", KEY, value) through
 //                                                  the gov router's "params" handler — the parameter is addressed by its store key
 //   restart                                     -> ok          the module goes through a genesis export / import: real ExportGenesis ->
@@ -112,6 +113,7 @@ type c11World struct {
 	govParam     map[string]bool         // parameter key -> value last written under it (by SetParams, genesis or a by-key proposal)
 	offByKey     bool                    // … and that write was a governance parameter change addressed by key
 	offRestarts  map[common.Address]int  // restarts since the pair was switched off
+	pgModes   map[common.Address][3]int64 // what the programmable tokens are currently programmed to do (distribution counters only)
 	mw        porttypes.IBCModule // the app's ICS-20 route: aggregate middleware over the real transfer application
 	seq       uint64
 }
@@ -209,6 +211,9 @@ func (w *c11World) allAccts() []common.Address {
 var c11ABI = erc20contracts.ERC20MinterBurnerDecimalsContract.ABI
 
 func (w *c11World) callUint(ctx sdk.Context, c common.Address, method string, args ...interface{}) *big.Int {
+	if w.kinds[c] == "pg" && method == "balanceOf" {
+		return w.pgReal(ctx, c, args[0].(common.Address)) // the honest call path of the programmable token
+	}
 	var out *big.Int
 	safely(func() {
 		cctx, _ := ctx.CacheContext()
@@ -402,6 +407,8 @@ func (w *c11World) deploy(kind string, deployer common.Address, init *big.Int) (
 		ctor, err = erc20contracts.ERC20MaliciousDelayedContract.ABI.Pack("", init)
 	case "dd", "fr":
 		bin = c11AdversarialBin(kind)
+	case "pg":
+		bin = c11ProgrammableBin()
 	default:
 		return common.Address{}, fmt.Errorf("kind")
 	}
@@ -739,6 +746,25 @@ func (w *c11World) deliver(r *Rec, m c11Msg, validate func() error, handle func(
 	if !m.coin {
 		k = "ce."
 	}
+	if p.found && w.kinds[p.addr] == "pg" {
+		md := w.pgModes[p.addr]
+		fail := func(x int64) bool { return x == 1 || x == 2 || x == 4 }
+		if md != [3]int64{} && out != "err basic" {
+			r.Count("pg.conv." + k + cls)
+			if fail(md[0]) {
+				r.Count("pg.conv." + k + "read1-fails." + cls)
+			}
+			if fail(md[1]) {
+				r.Count("pg.conv." + k + "read2-fails." + cls)
+			}
+			if e := s0.tok[c11Hex(p.addr)+"|"+c11Hex(w.module)]; e != nil && e.Sign() > 0 && e.Cmp(m.amt) == 0 {
+				r.Count("pg.amount-eq-escrow")
+				if fail(md[0]) && md[2] == 2 {
+					r.Count("pg.locked-attack." + k + cls) // failed first reading, transfer without effect, amount == escrow
+				}
+			}
+		}
+	}
 	if m.named != "" {
 		acc := "rejected"
 		if cls == "ok" || cls == "clean" {
@@ -877,6 +903,25 @@ func (w *c11World) apply(r *Rec, op string) string {
 		K.SetParams(w.ctx, p)
 		w.govParam["EnableAggregate"] = f[1] == "1" // SetParams writes every field under its own key
 		w.govModuleOff, w.offByKey = f[1] != "1", false
+		return "ok"
+	case "ctl":
+		who := common.Address{}
+		if f[4] != "-" {
+			who = c11Addr(f[4])
+		}
+		m1, m2, xf := c11Big(f[2]).Int64(), c11Big(f[3]).Int64(), c11Big(f[5]).Int64()
+		if err := w.pgCtl(c11Addr(f[1]), m1, m2, who, xf); err != nil {
+			r.t.Fatalf("ctl: %v", err)
+		}
+		if w.pgModes == nil {
+			w.pgModes = map[common.Address][3]int64{}
+		}
+		w.pgModes[c11Addr(f[1])] = [3]int64{m1, m2, xf}
+		if m1 != 0 || m2 != 0 || xf != 0 {
+			r.Count(fmt.Sprintf("pg.read1.%d", m1))
+			r.Count(fmt.Sprintf("pg.read2.%d", m2))
+			r.Count(fmt.Sprintf("pg.xfer.%d", xf))
+		}
 		return "ok"
 	case "gov":
 		// what governance does: a ParameterChangeProposal (subspace "aggregate", key, JSON value) executed by the handler
